@@ -773,6 +773,14 @@ func (pf *ParserFacts) producerGuard(root ssa.Value, accepted ...atomKind) (bool
 					if ok, why := pf.appendGuards(g, nil, nil, accepted...); ok {
 						return true, why
 					}
+					// the invoking function has the list read by a helper of its own
+					if lst := c.Call.Args[idx]; lst != root {
+						if _, isParam := lst.(*ssa.Parameter); !isParam {
+							if ok, why := pf.producerGuard(lst, accepted...); ok {
+								return true, why
+							}
+						}
+					}
 				}
 			}
 		}
